@@ -45,6 +45,7 @@ func init() {
 		p.assume(tc.Ult(n, tc.Const(64, 1<<24)))
 		o := p.newByteStore(types.Typ[types.Uint8], 8, n, true, "in")
 		p.inputs = append(p.inputs, &InputRec{Kind: "bytes", obj: o, lenT: n, Name: o.Base.Name, Env: p.inModel()})
+		p.pinInput(len(p.inputs) - 1)
 		return &SliceV{Obj: o, Off: tc.Const(64, 0), Len: n, Cap: n}
 	})
 	reg(vfPkg+".Assume", func(p *Path, fn *ssa.Function, args []Value) Value {
@@ -182,6 +183,21 @@ func init() {
 		}
 		src := p.newByteStore(types.Typ[types.Uint8], 8, s.Len, true, "havoc")
 		p.copyElems(s.Obj, s.Off, src, p.tc.Const(64, 0), s.Len)
+		return nil
+	})
+	reg(vfPkg+".First64", func(p *Path, fn *ssa.Function, args []Value) Value {
+		s := args[0].(*SliceV)
+		if s.Obj == nil || !s.Len.IsConst() || s.Len.Val < 8 {
+			return p.tc.Const(64, 0)
+		}
+		return p.first64(s)
+	})
+	reg(vfPkg+".Put64", func(p *Path, fn *ssa.Function, args []Value) Value {
+		s := args[0].(*SliceV)
+		v := args[1].(*Term)
+		for i := 0; i < 8; i++ {
+			p.writeElem(s.Obj, p.tc.BvAdd(s.Off, p.tc.Const(64, uint64(i))), p.tc.Extract(v, 63-8*i, 56-8*i))
+		}
 		return nil
 	})
 	reg(vfPkg+".SameObject", func(p *Path, fn *ssa.Function, args []Value) Value {
@@ -369,59 +385,27 @@ func init() {
 		return &StructV{Typ: tt, Fields: []Value{wall, ext, &PtrV{}}}
 	})
 	reg("time.Now", func(p *Path, fn *ssa.Function, args []Value) Value {
+		// the clock: arbitrary non-decreasing instants with one-second granularity
+		// (sub-second parts make every later comparison a 64-bit bit-twiddling chain
+		// that the solver does not finish; all timeouts in the code are whole seconds)
 		tc := p.tc
 		sec := p.fresh("now_sec", BV(64))
-		nsec := p.fresh("now_nsec", BV(64))
-		p.inputs = append(p.inputs, &InputRec{Kind: "int", term: sec, Name: sec.Name, Env: true}, &InputRec{Kind: "int", term: nsec, Name: nsec.Name, Env: true})
+		p.inputs = append(p.inputs, &InputRec{Kind: "int", term: sec, Name: sec.Name, Env: true})
+		p.pinInput(len(p.inputs) - 1)
 		if p.guard != nil {
 			panic(mergeAbort{"time.Now in merge region"})
 		}
+		p.note("time.Now = arbitrary non-decreasing instants, whole seconds")
 		p.assertPC(tc.And(tc.Slt(tc.Const(64, 0), sec), tc.Slt(sec, tc.Const(64, 1<<40))))
-		p.assertPC(tc.Ult(nsec, tc.Const(64, 1000000000)))
 		if last, ok := p.ghost["now"]; ok {
-			l := last.([2]*Term)
-			// non-decreasing clock
-			p.assertPC(tc.Or(tc.Slt(l[0], sec), tc.And(tc.Eq(l[0], sec), tc.Ule(l[1], nsec))))
+			p.assertPC(tc.Sle(last.(*Term), sec))
 		}
 		if p.ghost == nil {
 			p.ghost = map[string]Value{}
 		}
-		p.ghost["now"] = [2]*Term{sec, nsec}
+		p.ghost["now"] = sec
 		tt := fn.Signature.Results().At(0).Type()
-		return &StructV{Typ: tt, Fields: []Value{nsec, tc.BvAdd(sec, tc.Const(64, 62135596800)), &PtrV{}}}
-	})
-
-	// ----- reflect (only the nil test used by mgr.NewGroup) -----
-	reg("reflect.ValueOf", func(p *Path, fn *ssa.Function, args []Value) Value {
-		return &ReflectV{V: args[0]}
-	})
-	reg("(reflect.Value).IsNil", func(p *Path, fn *ssa.Function, args []Value) Value {
-		rv, ok := args[0].(*ReflectV)
-		if !ok {
-			p.unsupported("reflect.Value.IsNil on a value not produced by reflect.ValueOf")
-		}
-		iv, ok := rv.V.(*IfaceV)
-		if !ok || iv.Typ == nil {
-			p.obligation(p.tc.False, "panic", "reflect-isnil", "reflect: call of reflect.Value.IsNil on zero Value")
-			p.end("gopanic", "reflect IsNil on zero Value")
-		}
-		switch x := iv.Val.(type) {
-		case *PtrV:
-			return p.tc.Bool(x.Obj == nil)
-		case *MapV:
-			return p.tc.Bool(x.M == nil)
-		case *SliceV:
-			return p.tc.Bool(x.Obj == nil)
-		case *FuncV:
-			return p.tc.Bool(x.Fn == nil && x.Builtin == "")
-		case *ChanV:
-			return p.tc.Bool(x == nil)
-		case *IfaceV:
-			return p.tc.Bool(x.Typ == nil)
-		}
-		p.obligation(p.tc.False, "panic", "reflect-isnil", "reflect: call of reflect.Value.IsNil on non-nillable value")
-		p.end("gopanic", "reflect IsNil on non-nillable")
-		return nil
+		return &StructV{Typ: tt, Fields: []Value{tc.Const(64, 0), tc.BvAdd(sec, tc.Const(64, 62135596800)), &PtrV{}}}
 	})
 
 	// ----- crypto/rand -----
